@@ -76,6 +76,8 @@ pub struct ZooCtx<'a> {
     pub hist_cursor: usize,
     /// C19: outcome table lines
     pub table: Vec<String>,
+    /// C18: parsed .proto files per universe index
+    pub protos: std::collections::BTreeMap<usize, std::rc::Rc<ProtoSet>>,
 }
 
 impl<'a> ZooCtx<'a> {
@@ -1711,6 +1713,455 @@ fn c19_schemaless<T: ZooType>(ctx: &mut ZooCtx, e: &TypeEntry) {
 }
 
 // =============================================================================================
+// C17: protobuf round trip up to proto3 default equivalence
+
+/// the value Rust's `Default` gives for the generated type of `t` (what asn1rs's ProtobufEq compares an absent
+/// optional with): zero, false, empty, first item, first alternative, components default / absent
+fn rust_default(u: &Universe, mi: usize, t: &Type, depth: usize) -> Val {
+    if depth > 30 {
+        return Val::Null;
+    }
+    match t {
+        Type::Ref(n) => match u.lookup_def(mi, n) {
+            Some((dmi, d)) => rust_default(u, dmi, &d.ty, depth + 1),
+            None => Val::Null,
+        },
+        Type::Boolean => Val::Bool(false),
+        Type::Null => Val::Null,
+        Type::Integer { .. } => Val::Int(0),
+        Type::Enumerated { .. } => Val::Enum(0),
+        Type::BitString { .. } => Val::Bits(vec![]),
+        Type::OctetString { .. } => Val::Bytes(vec![]),
+        Type::CharString { .. } => Val::Str(String::new()),
+        Type::Sequence(c) | Type::Set(c) => Val::Seq(
+            c.all()
+                .enumerate()
+                .map(|(i, comp)| {
+                    let is_add = i >= c.root.len();
+                    match comp.presence {
+                        Presence::Optional => None,
+                        Presence::Mandatory if is_add => None,
+                        _ => Some(rust_default(u, mi, &comp.ty, depth + 1)),
+                    }
+                })
+                .collect(),
+        ),
+        Type::SequenceOf { .. } | Type::SetOf { .. } => Val::List(vec![]),
+        Type::Choice { root, .. } => Val::Choice(0, Box::new(root.first().map(|a| rust_default(u, mi, &a.ty, depth + 1)).unwrap_or(Val::Null))),
+    }
+}
+
+/// protobuf equality of the property: identical, except that an absent optional and a present default-ish value
+/// are indistinguishable. Returns a short class of the first difference.
+fn proto_eq(u: &Universe, mi: usize, t: &Type, a: &Val, b: &Val, depth: usize) -> Option<String> {
+    if depth > 60 {
+        return None;
+    }
+    match (t, a, b) {
+        (Type::Ref(n), _, _) => match u.lookup_def(mi, n) {
+            Some((dmi, d)) => proto_eq(u, dmi, &d.ty, a, b, depth + 1),
+            None => None,
+        },
+        (Type::Sequence(c), Val::Seq(fa), Val::Seq(fb)) | (Type::Set(c), Val::Seq(fa), Val::Seq(fb)) => {
+            for (i, comp) in c.all().enumerate() {
+                let optional = matches!(comp.presence, Presence::Optional) || (i >= c.root.len() && matches!(comp.presence, Presence::Mandatory));
+                let kind = resolve_kind(u, mi, &comp.ty).map(|t| t.kind_name()).unwrap_or("?");
+                match (fa.get(i).and_then(|x| x.as_ref()), fb.get(i).and_then(|x| x.as_ref())) {
+                    (Some(x), Some(y)) => {
+                        if let Some(d) = proto_eq(u, mi, &comp.ty, x, y, depth + 1) {
+                            return Some(d);
+                        }
+                    }
+                    (None, None) => {}
+                    (Some(x), None) | (None, Some(x)) if optional => {
+                        if *x != rust_default(u, mi, &comp.ty, 0) {
+                            return Some(format!("optional-{}:{}", kind, if fa.get(i).and_then(|x| x.as_ref()).is_some() { "present-nondefault->absent" } else { "absent->present-nondefault" }));
+                        }
+                    }
+                    _ => return Some(format!("component-{}:presence", kind)),
+                }
+            }
+            None
+        }
+        (Type::SequenceOf { elem, .. }, Val::List(la), Val::List(lb)) | (Type::SetOf { elem, .. }, Val::List(la), Val::List(lb)) => {
+            let ek = resolve_kind(u, mi, elem).map(|t| t.kind_name()).unwrap_or("?");
+            if la.len() != lb.len() {
+                return Some(format!("list-of-{}:length", ek));
+            }
+            for (x, y) in la.iter().zip(lb.iter()) {
+                if let Some(d) = proto_eq(u, mi, elem, x, y, depth + 1) {
+                    return Some(format!("list-of-{}>{}", ek, d));
+                }
+            }
+            None
+        }
+        (Type::Choice { root, ext }, Val::Choice(ia, xa), Val::Choice(ib, xb)) => {
+            if ia != ib {
+                return Some("choice:alternative".to_string());
+            }
+            match root.iter().chain(ext.iter().flatten()).nth(*ia) {
+                Some(alt) => proto_eq(u, mi, &alt.ty, xa, xb, depth + 1).map(|d| format!("choice>{}", d)),
+                None => None,
+            }
+        }
+        _ => {
+            if a == b {
+                None
+            } else {
+                Some(format!("{}:value", t.kind_name()))
+            }
+        }
+    }
+}
+
+/// schema features that matter for protobuf (used in signatures)
+fn proto_features(u: &Universe, mi: usize, t: &Type, out: &mut BTreeSet<&'static str>, depth: usize) {
+    if depth > 12 {
+        return;
+    }
+    match t {
+        Type::Ref(n) => {
+            if let Some((dmi, d)) = u.lookup_def(mi, n) {
+                proto_features(u, dmi, &d.ty, out, depth + 1);
+            }
+        }
+        Type::Sequence(c) | Type::Set(c) => {
+            for comp in c.all() {
+                proto_features(u, mi, &comp.ty, out, depth + 1);
+            }
+        }
+        Type::SequenceOf { elem, .. } | Type::SetOf { elem, .. } => {
+            match resolve_kind(u, mi, elem) {
+                Some(Type::SequenceOf { .. }) | Some(Type::SetOf { .. }) => {
+                    out.insert("list-of-list");
+                }
+                Some(Type::Null) => {
+                    out.insert("list-of-null");
+                }
+                Some(Type::Choice { .. }) => {
+                    out.insert("list-of-choice");
+                }
+                _ => {}
+            }
+            proto_features(u, mi, elem, out, depth + 1);
+        }
+        Type::Choice { root, ext } => {
+            for a in root.iter().chain(ext.iter().flatten()) {
+                match resolve_kind(u, mi, &a.ty) {
+                    Some(Type::SequenceOf { .. }) | Some(Type::SetOf { .. }) => {
+                        out.insert("list-in-choice");
+                    }
+                    Some(Type::Choice { .. }) => {
+                        out.insert("choice-in-choice");
+                    }
+                    Some(Type::Null) => {
+                        out.insert("null-in-choice");
+                    }
+                    _ => {}
+                }
+                proto_features(u, mi, &a.ty, out, depth + 1);
+            }
+        }
+        _ => {}
+    }
+}
+
+/// features of the value that have no protobuf representation in asn1rs's mapping (used in signatures)
+fn proto_value_features(u: &Universe, mi: usize, t: &Type, v: &Val, out: &mut BTreeSet<&'static str>, depth: usize) {
+    if depth > 40 {
+        return;
+    }
+    match (t, v) {
+        (Type::Ref(n), _) => {
+            if let Some((dmi, d)) = u.lookup_def(mi, n) {
+                proto_value_features(u, dmi, &d.ty, v, out, depth + 1);
+            }
+        }
+        (Type::Sequence(c), Val::Seq(f)) | (Type::Set(c), Val::Seq(f)) => {
+            for (i, comp) in c.all().enumerate() {
+                if let Some(Some(x)) = f.get(i) {
+                    proto_value_features(u, mi, &comp.ty, x, out, depth + 1);
+                }
+            }
+        }
+        (Type::SequenceOf { elem, .. }, Val::List(l)) | (Type::SetOf { elem, .. }, Val::List(l)) => {
+            if matches!(resolve_kind(u, mi, elem), Some(Type::SequenceOf { .. }) | Some(Type::SetOf { .. })) {
+                out.insert("list-directly-in-list");
+            }
+            for x in l.iter().take(64) {
+                proto_value_features(u, mi, elem, x, out, depth + 1);
+            }
+        }
+        (Type::Choice { root, ext }, Val::Choice(i, inner)) => {
+            if let Some(a) = root.iter().chain(ext.iter().flatten()).nth(*i) {
+                if let (Some(Type::SequenceOf { .. }) | Some(Type::SetOf { .. }), Val::List(l)) = (resolve_kind(u, mi, &a.ty), &**inner) {
+                    if l.is_empty() {
+                        out.insert("empty-list-as-choice-alternative");
+                    }
+                }
+                proto_value_features(u, mi, &a.ty, inner, out, depth + 1);
+            }
+        }
+        _ => {}
+    }
+}
+
+fn proto_err_kind<E: std::fmt::Debug>(e: &E) -> String {
+    format!("{:?}", e).split(|c: char| !c.is_alphanumeric()).next().unwrap_or("").to_string()
+}
+
+fn c17_single<T: ZooType>(ctx: &mut ZooCtx, u: &Universe, e: &TypeEntry) {
+    use asn1rs::rw::{ProtobufReader, ProtobufWriter};
+    prewarm_backtrace_cache();
+    let ty = Type::Ref(e.def.clone());
+    let mut pf = BTreeSet::new();
+    proto_features(u, e.module, &ty, &mut pf, 0);
+    let pfs = pf.iter().copied().collect::<Vec<_>>().join("+");
+    for k in 0..ctx.values_per_type {
+        let v = gen_value(ctx, u, e, k);
+        if v.nodes() > 20_000 {
+            continue;
+        }
+        ctx.rep.eval();
+        let t: T = match make::<T>(ctx, u, e, &v, "c17") {
+            Some(t) => t,
+            None => continue,
+        };
+        let wj = |extra: Value| wit(u, e, &v, json!({"schema_features": pfs, "detail": extra}));
+        // --- growable back end
+        let mut w1 = ProtobufWriter::default();
+        let bytes = match guarded(|| w1.write(&t)) {
+            Err(p) => {
+                ctx.rep.violation(&format!("c17:write:{}", p.signature()), wj(json!(null)));
+                continue;
+            }
+            Ok(Err(err)) => {
+                ctx.rep.violation(&format!("c17:writer-refuses:{}:{}", proto_err_kind(&err), pfs), wj(json!(null)));
+                continue;
+            }
+            Ok(Ok(())) => w1.as_bytes().to_vec(),
+        };
+        if w1.len_written() != bytes.len() {
+            ctx.rep.violation("c17:len_written-differs-from-bytes", wj(json!({"len_written": w1.len_written(), "bytes": bytes.len()})));
+        }
+        // --- fixed-slice back end: roomy, exact, one octet short
+        for (room, label) in [(bytes.len() + 16, "roomy"), (bytes.len(), "exact")] {
+            let mut buf = vec![0xEEu8; room];
+            let r = guarded(|| {
+                let mut w2 = ProtobufWriter::from(&mut buf[..]);
+                let r = w2.write(&t);
+                (r.map_err(|e| proto_err_kind(&e)), w2.as_bytes().to_vec(), w2.len_written())
+            });
+            match r {
+                Err(p) => ctx.rep.violation(&format!("c17:slice-writer:{}:{}", label, p.signature()), wj(json!(null))),
+                Ok((Err(k), _, _)) => ctx.rep.violation(&format!("c17:slice-writer-refuses:{}:{}", label, k), wj(json!({"room": room, "needed": bytes.len()}))),
+                Ok((Ok(()), b2, n2)) => {
+                    if b2 != bytes || n2 != bytes.len() {
+                        ctx.rep.violation(&format!("c17:back-ends-differ:{}", label), wj(json!({"vec": hex(&bytes).chars().take(200).collect::<String>(), "slice": hex(&b2).chars().take(200).collect::<String>()})));
+                    } else if buf[bytes.len()..].iter().any(|b| *b != 0xEE) {
+                        ctx.rep.violation("c17:slice-writer-touched-bytes-behind-the-message", wj(json!(null)));
+                    }
+                }
+            }
+        }
+        if !bytes.is_empty() {
+            let mut buf = vec![0u8; bytes.len() - 1];
+            let r = guarded(|| {
+                let mut w2 = ProtobufWriter::from(&mut buf[..]);
+                w2.write(&t).map_err(|e| proto_err_kind(&e))
+            });
+            match r {
+                Err(p) => ctx.rep.violation(&format!("c17:slice-writer:short:{}", p.signature()), wj(json!(null))),
+                Ok(Ok(())) => ctx.rep.violation("c17:slice-writer-accepts-a-buffer-that-is-too-small", wj(json!({"room": bytes.len() - 1}))),
+                Ok(Err(_)) => ctx.rep.hist("outcomes", "short-slice-rejected"),
+            }
+        }
+        // --- read back
+        let back = guarded(|| ProtobufReader::from(&bytes[..]).read::<T>().map_err(|e| proto_err_kind(&e)));
+        match back {
+            Err(p) => ctx.rep.violation(&format!("c17:read:{}", p.signature()), wj(json!({"protobuf": hex(&bytes).chars().take(200).collect::<String>()}))),
+            Ok(Err(k)) => {
+                let mut vf = BTreeSet::new();
+                proto_value_features(u, e.module, &ty, &v, &mut vf, 0);
+                let vfs = vf.iter().copied().collect::<Vec<_>>().join("+");
+                ctx.rep.violation(&format!("c17:own-bytes-rejected:{}:{}", k, vfs), wj(json!({"protobuf": hex(&bytes).chars().take(200).collect::<String>()})))
+            }
+            Ok(Ok(t2)) => match guarded(|| Extractor::extract(u, ctx.set_order, e.module, &e.def, &t2)) {
+                Ok(Ok(v2)) => match proto_eq(u, e.module, &ty, &v, &v2, 0) {
+                    None => {
+                        ctx.rep.hist("outcomes", if v2 == v { "identical" } else { "protobuf-equal" });
+                    }
+                    Some(d) => ctx.rep.violation(&format!("c17:round-trip-differs:{}", d), wj(json!({"protobuf": hex(&bytes).chars().take(200).collect::<String>(), "read_back": v2.short()}))),
+                },
+                _ => ctx.rep.violation("c17:extractor-failed-on-read-value", wj(json!(null))),
+            },
+        }
+        // owned-vector reader
+        if k % 4 == 0 {
+            match guarded(|| ProtobufReader::from(bytes.clone()).read::<T>().map_err(|e| proto_err_kind(&e))) {
+                Err(p) => ctx.rep.violation(&format!("c17:read-owned:{}", p.signature()), wj(json!(null))),
+                Ok(a) => {
+                    let b = guarded(|| ProtobufReader::from(&bytes[..]).read::<T>().map_err(|e| proto_err_kind(&e)));
+                    if let Ok(b) = b {
+                        if a != b {
+                            ctx.rep.violation("c17:owned-and-borrowed-reader-differ", wj(json!(null)));
+                        }
+                    }
+                }
+            }
+        }
+        if !bytes.is_empty() && v.nodes() > 1 {
+            ctx.rep.distinct(hash_str(&e.def) ^ vgen::rng::hash_bytes(&bytes) ^ (e.id as u64) << 32);
+        }
+        ctx.rep.hist("kinds", top_kind(u, e));
+        for f in &pf {
+            ctx.rep.hist("schema-features", f);
+        }
+        if k == 0 && e.id % 40 == 0 {
+            ctx.rep.sample(json!({"type": e.def, "value": v.short(), "protobuf": hex(&bytes).chars().take(120).collect::<String>()}));
+        }
+    }
+}
+
+// =============================================================================================
+// C18: protobuf bytes agree with the generated .proto schema
+
+/// the parsed .proto files of one universe
+pub struct ProtoSet {
+    pub files: Vec<vgen::proto::PFile>,
+    /// file index per module index
+    pub file_of_module: Vec<usize>,
+    pub texts: Vec<String>,
+    pub error: Option<String>,
+}
+
+impl ProtoSet {
+    pub fn from_json(v: &Value, nmodules: usize) -> ProtoSet {
+        let mut set = ProtoSet { files: Vec::new(), file_of_module: vec![usize::MAX; nmodules], texts: Vec::new(), error: v["error"].as_str().map(|s| s.to_string()) };
+        for f in v["files"].as_array().cloned().unwrap_or_default() {
+            let mi = f["module"].as_u64().unwrap_or(0) as usize;
+            let name = f["file"].as_str().unwrap_or("").to_string();
+            let text = f["text"].as_str().unwrap_or("").to_string();
+            match vgen::proto::parse_proto(&name, &text) {
+                Ok(pf) => {
+                    if mi < nmodules {
+                        set.file_of_module[mi] = set.files.len();
+                    }
+                    set.files.push(pf);
+                    set.texts.push(text);
+                }
+                Err(e) => {
+                    set.error = Some(format!("unparsable:{}", e));
+                    set.texts.push(text);
+                }
+            }
+        }
+        set
+    }
+}
+
+/// static part, once per universe: the text is valid proto3
+pub fn c18_validate(rep: &mut Report, ui: usize, set: &ProtoSet, asn1: &str) {
+    rep.eval();
+    let w_ = |detail: Value| json!({"universe": ui, "asn1": asn1, "proto": set.texts, "detail": detail});
+    if let Some(e) = &set.error {
+        let class: String = crate::journal::normalise_msg(e).chars().take(80).collect();
+        rep.violation(&format!("c18:proto-text:{}", class), w_(json!({"error": e})));
+        return;
+    }
+    let breaches = vgen::proto::validate(&set.files);
+    let mut rules = BTreeSet::new();
+    for (rule, detail) in &breaches {
+        if rules.insert(rule.clone()) {
+            rep.violation(&format!("c18:invalid-proto3:{}", rule), w_(json!({"breach": detail})));
+        }
+    }
+    if breaches.is_empty() {
+        rep.hist("proto-files", "valid");
+    } else {
+        rep.hist("proto-files", "invalid");
+    }
+    for f in &set.files {
+        for d in &f.defs {
+            match d {
+                vgen::proto::PDef::Message { fields, .. } => {
+                    rep.hist("proto-constructs", "message");
+                    for fl in fields {
+                        rep.hist("proto-constructs", if fl.oneof.is_some() { "oneof-member" } else if fl.repeated { "repeated-field" } else { "singular-field" });
+                        rep.hist("proto-field-types", if vgen::proto::SCALARS.contains(&fl.ty.as_str()) { fl.ty.as_str() } else { "named" });
+                    }
+                }
+                vgen::proto::PDef::Enum { .. } => rep.hist("proto-constructs", "enum"),
+            }
+        }
+    }
+    rep.distinct(hash_str(&set.texts.join("\n")));
+}
+
+fn c18_single<T: ZooType>(ctx: &mut ZooCtx, u: &Universe, e: &TypeEntry) {
+    use asn1rs::rw::ProtobufWriter;
+    prewarm_backtrace_cache();
+    let set = match e.universe.and_then(|ui| ctx.protos.get(&ui)) {
+        Some(s) => s.clone(),
+        None => {
+            ctx.rep.hist("outcomes", "no-proto-for-universe");
+            return;
+        }
+    };
+    if set.error.is_some() {
+        ctx.rep.hist("outcomes", "proto-text-unusable");
+        return;
+    }
+    if matches!(type_of(u, e), Some(Type::Enumerated { .. })) {
+        // a top-level ENUMERATED value is a bare varint, not a message: nothing to parse under the schema
+        ctx.rep.hist("outcomes", "skipped:top-level-enumerated");
+        return;
+    }
+    let m = vgen::proto::Matcher { u, files: &set.files, file_of_module: &set.file_of_module };
+    let ty = Type::Ref(e.def.clone());
+    for k in 0..ctx.values_per_type {
+        let v = gen_value(ctx, u, e, k);
+        if v.nodes() > 20_000 {
+            continue;
+        }
+        ctx.rep.eval();
+        let t: T = match make::<T>(ctx, u, e, &v, "c18") {
+            Some(t) => t,
+            None => continue,
+        };
+        let mut w1 = ProtobufWriter::default();
+        let bytes = match guarded(|| w1.write(&t)) {
+            Ok(Ok(())) => w1.as_bytes().to_vec(),
+            _ => {
+                ctx.rep.hist("outcomes", "writer-failed(judged-by-C17)");
+                continue;
+            }
+        };
+        match m.match_top(e.module, &e.def, &v, &bytes) {
+            Ok(()) => {
+                ctx.rep.hist("outcomes", "bytes-parse-to-the-value");
+                if !bytes.is_empty() && v.nodes() > 1 {
+                    ctx.rep.distinct(hash_str(&e.def) ^ vgen::rng::hash_bytes(&bytes) ^ (e.id as u64) << 32);
+                }
+            }
+            Err(d) => {
+                let mut vf = BTreeSet::new();
+                proto_value_features(u, e.module, &ty, &v, &mut vf, 0);
+                // classes carry no variable parts except the component counts of shape mismatches
+                let class: String = if d.starts_with("message-shape") { d.split(':').take(2).collect::<Vec<_>>().join(":") } else { d.clone() };
+                ctx.rep.violation(
+                    &format!("c18:bytes-vs-schema:{}", class),
+                    wit(u, e, &v, json!({"protobuf": hex(&bytes).chars().take(300).collect::<String>(), "mismatch": d, "value_features": vf.iter().collect::<Vec<_>>(), "proto": set.texts})),
+                );
+            }
+        }
+        if k == 0 && e.id % 40 == 0 {
+            ctx.rep.sample(json!({"type": e.def, "value": v.short(), "protobuf": hex(&bytes).chars().take(120).collect::<String>()}));
+        }
+    }
+}
+
+// =============================================================================================
 // dispatch
 
 pub fn run<T: ZooType>(ctx: &mut ZooCtx, e: &TypeEntry) {
@@ -1731,6 +2182,8 @@ pub fn run<T: ZooType>(ctx: &mut ZooCtx, e: &TypeEntry) {
         ("C06", Mode::Single) => c06_single::<T>(ctx, u, e),
         ("C04", Mode::Single) => c04_single::<T>(ctx, u, e),
         ("C19", Mode::Single) => c19_single::<T>(ctx, u, e),
+        ("C17", Mode::Single) => c17_single::<T>(ctx, u, e),
+        ("C18", Mode::Single) => c18_single::<T>(ctx, u, e),
         _ => {}
     }
 }
@@ -1759,6 +2212,8 @@ pub fn rule_text(prop: &str) -> String {
         "C05" => "schema pairs (V1, V2 = V1 + k extension additions / alternatives / enumeration items; additions of 1, 2, 63, 64, 127, 128, 129, 300 octets, OPTIONAL and mandatory, nested extensible), also nested as list element and non-last component; values of either version written with one version followed by a sentinel, read with the other: abstract value == R-PER decoder of the other version, reader position == message end, sentinel intact; unknown CHOICE/ENUMERATED extensions may fail but never yield a value. distinct = distinct (direction, pair, encoding)".to_string(),
         "C06" => "every constrained leaf of generated values (zoo types incl. a dedicated edge family: single-value ranges, negative ranges, fixed/extensible/range sizes of every string and list kind): one violation at a time - INTEGER lb-1, ub+1, +-2^31; SIZE lb-1, 0, ub+1, 2ub; one illegal character at first/middle/last position per alphabet; only values the generated Rust type can hold (Injector->Extractor identity). Non-extensible => Err(ValueNotInRange|SizeNotInRange|InvalidString|InvalidChoiceIndex), Ok is a violation (replay says what the bits decode to); extensible => Ok, round trip, bits == R-PER. CHOICE/ENUMERATED indices through hand-written adversarial descriptor types. distinct = distinct (type, violating value, violated constraint)".to_string(),
         "C04" => "every zoo type x inputs: 1/4 random byte strings (0..64 octets, sparse/dense, declared length in {0,1,7,8,8n-1,8n,random}) and 3/4 valid encodings of boundary values with 1..3 faults from {truncate, bit flip, insert/delete octet, length-determinant patterns 7F/BFFF/C4/FF/C1/8000.. at early positions, garbage behind the declared end, unaligned runs of ones/zeros, splice, shift by 1..7 bits}; UperReader<SpyBits>::read::<T> under the panic journal, the counting allocator (largest request and peak live <= 64 MiB + 4096 x input octets) and a forked child with watchdog and RLIMIT_AS (abort, hang); Ok => no read ended beyond the declared length and pos <= declared length; after every outcome bits_remaining()/pos()/len()/remaining() are called: no panic and pos + remaining == len; the same inputs (protobuf encodings with faults, whole octets) through ProtobufReader; the DER reader's number/boolean/raw primitives on all inputs of <= 2 octets and random longer ones. distinct = distinct (type, outcome kind, bits consumed)".to_string(),
+        "C17" => "zoo types (random, protobuf-edge: every integer width/sign, NULL, BIT STRING, nested lists, CHOICE in CHOICE, optional everything; edges; sets) x boundary values: ProtobufWriter (growable) -> bytes; fixed-slice writer with a roomy and an exactly sized buffer must produce identical bytes and leave the rest of the buffer untouched, a buffer one octet short must be refused; ProtobufReader (borrowed and owned) -> value -> Extractor; oracle proto_eq on abstract values: identical except OPTIONAL absent == present Rust-default value. distinct = distinct (type, encoding)".to_string(),
+        "C18" => "static: the .proto text the real ProtobufDefGenerator emits for every generated module set is parsed by an independent proto3 parser and validated (syntax, package, imports, unique symbols incl. enum values in package scope, identifiers, field numbers 1..2^29-1 unique and outside 19000..19999, unique field and JSON names, no repeated inside oneof, no repeated repeated, first enum value 0, resolvable types). dynamic: for every message type and boundary value the bytes of the real ProtobufWriter are split by an independent wire decoder and matched against the declared schema and the value: field number = position+1, declared scalar type decides how a conforming parser reads the varint (uint32 truncation, zig-zag), oneof numbering, enum numbering, nesting through named messages, repeated for lists, no undeclared field numbers, absent components not on the wire. distinct = distinct (type, encoding) that parsed to the value + distinct .proto texts".to_string(),
         "C19" => "every zoo type x (valid encodings, fault inputs as in C04): outcome (Ok + hash of the Debug rendering of the value | Err + Debug of the ErrorKind | panic signature) and bits consumed, recorded by two builds of the same zoo (default features / descriptive-deserialize-errors) into tables that the orchestrator compares line by line. distinct = distinct (type, outcome, consumed)".to_string(),
         other => format!("zoo monitor {}", other),
     }
